@@ -225,6 +225,8 @@ def main(tier, seed):
     chk.job(job_while_steps, 'step/while, end_while')
     chk.job(job_forin_steps, 'step/for, end_for')
     for gi in range(12): chk.job(job_runs, 'L2:programs/%d' % gi, seeds=seeds[gi::12], depth=2 if tier == 'quick' else 3, size=7 if tier == 'quick' else 10)
+    # (job_runs(symbolic_control=True) exists for experiments: condition variables and array length as solver variables with the runner loop
+    #  explored per script line; nested for-in loops over an array of symbolic length take minutes per program, so it is not registered)
     chk.bounds = dict(layer1='opener at line 0 followed by <= %d symbolic lines, nesting <= %d, every alias / full-name spelling of every block keyword' % (n - 1, D),
                       layer2='%d generated well-nested programs (if/elseif/else, while, for-in, emit, set), each run for every assignment of its condition variables and array length; array items symbolic' % nprog)
     chk.assumptions = ['layer 1: block boundary discovery (find_commands + create_*_meta_info_for_line) on fully symbolic program structure, well-nestedness assumed by a symbolic stack recogniser',
@@ -343,7 +345,7 @@ def interp(prog, store, g, arr):
     return store
 
 
-def job_runs(ctx, jr, seeds, depth, size):
+def job_runs(ctx, jr, seeds, depth, size, symbolic_control=False):
     """whole runs: per generated program every assignment of the condition variables and the array length is executed with
     concrete control flow (the program counter is concretised, DESIGN.md 2.2); the array items stay symbolic"""
     import itertools
@@ -362,9 +364,17 @@ def job_runs(ctx, jr, seeds, depth, size):
         dims = [COND_VALUES] * (len(cnames) + 2 * len(wnames)) + [[0, 1, 2] if has_for else [0]]
         names = cnames + [w for w in wnames] + [w + 'n' for w in wnames]
         jr.samples.append(' | '.join(lines))
+        if symbolic_control: dims = [[None]]
         for assign in itertools.product(*dims):
             vals = dict(zip(names, assign[:-1])); alen = assign[-1]
             e = ctx.engine(unwind=1000, max_rec=8); e.int_digits = 2
+            if symbolic_control:
+                # the condition variables and the array length are solver variables too: the runner's fetch / execute loop is explored per
+                # script line (states that reach the same line merge), the reference interpreter carries the same guards
+                e.split_loops['runner::run_instructions'] = 'line'; e.split_loops['utils::eval::eval_instructions'] = 'line'; e.split_by_steps.add('runner::run_instructions')
+                vidx = {n_: e.fresh_int('cond.' + n_, 0, len(COND_VALUES) - 1) for n_ in names}
+                vals = {n_: _choose(vidx[n_], COND_VALUES) for n_ in names}
+                alen = e.fresh_int('array.len', 0, 2) if has_for else 0
             e.hooks['utils::state::put_handle'] = _put_handle
             e.hooks['std::sync::atomic::Atomic::<bool>::load'] = lambda eng, st1, a, c: False
             t0 = time.time()
@@ -392,11 +402,11 @@ def job_runs(ctx, jr, seeds, depth, size):
                                       (True, mk_str('set'), e.alloc(st, T([mk_str('std')], 'sdk::std::var::set::CommandImpl')))]), M([])], 'types::command::Commands')
             e.run_call('sdk::std::flowcontrol::load', st, [P(0, 'cmds'), mk_str('std')], 'sdk')
             commands = st.m[(0, 'cmds')]
-            aitems = [S(1, [e.fresh_int('arr.%d' % k, ord('p'), ord('q'))]) for k in range(alen)]
+            aitems = [S(1, [e.fresh_int('arr.%d' % k, ord('p'), ord('q'))]) for k in range(alen if not symbolic_control else 2)]
             lst = E('types::runtime::StateValue', LIST, {LIST: [V(alen, [E('types::runtime::StateValue', STR, {STR: [x]}) for x in aitems])]})
             state = M([(True, mk_str('handles'), E('types::runtime::StateValue', SUB, {SUB: [M([(True, mk_str('handle:arr'), lst)])]}))])
             init = {'trace': S(0, []), 'arr': mk_str('handle:arr')}
-            for n_, v_ in vals.items(): init[n_] = mk_str(v_)
+            for n_, v_ in vals.items(): init[n_] = mk_str(v_) if isinstance(v_, str) else v_
             variables = M([(True, mk_str(n_), v_) for n_, v_ in init.items()])
             instrs = []
             for i, l in enumerate(lines):
@@ -426,7 +436,8 @@ def job_runs(ctx, jr, seeds, depth, size):
             for msg, c in checks: e.obligations.append(Obligation(rs.g, c, 'C04 run(seed %d): %s' % (sd, msg), 'assert', 'oracle'))
 
             def extract(m, o=None):
-                return dict(kind='c04_l2', script=lines, vars=vals, array=[solve.model_str(m, x) for x in aitems], expected_trace=solve.model_str(m, store['trace'][1]))
+                return dict(kind='c04_l2', script=lines, vars={n_: (v_ if isinstance(v_, str) else solve.model_str(m, v_)) for n_, v_ in vals.items()},
+                            array=[solve.model_str(m, x) for x in aitems][:solve.model_int(m, alen) if is_sym(alen) else alen], expected_trace=solve.model_str(m, store['trace'][1]))
             res = discharge_known(e, jr, PID, {}, extract)
             H.finish_job(jr, e, res)
             if jr.violations: break
